@@ -113,7 +113,12 @@ def build_problem(spec):
             e = xu.with_unit(pm.Beta("e", 0.867, 3.03), u.one)
             om = xu.with_unit(pm.Uniform("omega", 0, 2 * np.pi), u.rad)
             M0 = xu.with_unit(pm.Uniform("M0", 0, 2 * np.pi), u.rad)
-            s = xu.with_unit(pm.Deterministic("s", pt.constant(0.0)), du)
+            if spec.get("s_prior") == "const":  # a constant jitter carried by the prior (what setup_mcmc uses)
+                s = xu.with_unit(pm.Deterministic("s", pt.constant(float(spec["theta"]["s"]))), du)
+            elif spec.get("s_prior") == "sampled":
+                s = xu.with_unit(pm.Lognormal("s", np.array(np.log(max(float(spec["theta"]["s"]), 1e-3))), np.array(0.5)), du)
+            else:
+                s = xu.with_unit(pm.Deterministic("s", pt.constant(0.0)), du)
             pars = dict(P=P, e=e, omega=om, M0=M0, s=s)
             for p in spec["lin"]:
                 un = u.Unit(p["unit"])
